@@ -38,6 +38,7 @@ pub struct Stats {
 }
 
 pub const MAX_KEPT_VIOLATIONS: usize = 40;
+pub const SET_CAP: usize = 3_000_000;
 pub const MAX_SAMPLES: usize = 6;
 
 impl Stats {
@@ -53,11 +54,21 @@ impl Stats {
             *e = n;
         }
     }
+    /// The fingerprint sets are only there to be counted: each thread stops adding beyond
+    /// SET_CAP entries (the reported counts are then lower bounds, flagged by a counter).
     pub fn state<T: Hash>(&mut self, t: &T) {
-        self.states.insert(hash_of(t));
+        if self.states.len() < SET_CAP {
+            self.states.insert(hash_of(t));
+        } else {
+            self.counters.insert("fingerprint_sets_capped_(counts_are_lower_bounds)".into(), 1);
+        }
     }
     pub fn nontrivial<T: Hash>(&mut self, t: &T) {
-        self.nontrivial.insert(hash_of(t));
+        if self.nontrivial.len() < SET_CAP {
+            self.nontrivial.insert(hash_of(t));
+        } else {
+            self.counters.insert("fingerprint_sets_capped_(counts_are_lower_bounds)".into(), 1);
+        }
     }
     pub fn violation(&mut self, v: Violation) {
         self.violation_count += 1;
